@@ -337,6 +337,37 @@ func checkC14(c C14Case) (o Outcome) {
 		o.Viol = viol("parseall-list", "ParseAll visited %v, program is %v", seen, ins)
 		return
 	}
+	// 2b. decoded arguments are values: what was decoded stays what it is when the caller
+	// goes on to use its buffer for something else
+	{
+		buf := append([]byte(nil), enc...)
+		var kept []Instr
+		if _, err := recordingHandler(&kept).ParseAll(buf); err != nil {
+			o.Viol = viol("parseall-error", "ParseAll fails on a valid program: %v", err)
+			return
+		}
+		rest := buf
+		var kept1 []Instr
+		for range ins {
+			got, r, err := vmDecodeOne(rest)
+			if err != nil {
+				break
+			}
+			kept1 = append(kept1, got)
+			rest = r
+		}
+		for i := range buf {
+			buf[i] = 0xAA
+		}
+		if !refdec.Equal(kept, ins) {
+			o.Viol = viol("decoded-argument-is-a-view", "the arguments ParseAll handed out changed when the decoded buffer was overwritten afterwards: now %v, program is %v", kept, ins)
+			return
+		}
+		if !refdec.Equal(kept1, ins) {
+			o.Viol = viol("decoded-argument-is-a-view", "the arguments the Parse functions returned changed when the decoded buffer was overwritten afterwards: now %v, program is %v", kept1, ins)
+			return
+		}
+	}
 	// 3. disassembler text
 	text, err := vm.NewParseHandler().WithDefaultHandlers().ToString(enc)
 	if err != nil {
